@@ -1,8 +1,9 @@
 (* Extraction of the executable model and specification (ExtrOcamlBasic only;
-   nat stays the unary extracted datatype; no Extract Constant). *)
+   nat/Z stay the extracted datatypes; no Extract Constant). *)
 Require Extraction.
 Require Import ExtrOcamlBasic.
-Require Import ExcerptModel ExcerptSpec.
+Require Import ExcerptModel ExcerptSpec Model Spec Entry.
 Extraction "../ocaml/model.ml"
   lc_map line_col extract_text bytes_window error_line_col
-  spec_line spec_col linecol_ok excerpt_ok.
+  spec_line spec_col linecol_ok excerpt_ok
+  always partial exec fresh peg parse_model.
